@@ -140,6 +140,7 @@ class Package:
         self.overlay = overlay or {}
         self.modules, self.functions, self.classes = {}, {}, {}
         self.files = []
+        self.unused_ok = set()
         if not self.root.is_dir():
             raise AnalysisError("package root %s not found" % root)
         h = hashlib.sha256()
@@ -162,6 +163,13 @@ class Package:
                 raise AnalysisError("cannot parse %s: %s" % (rel, e)) from e
             self.modules[qual] = m
             self.files.append(str(rel))
+            # functions whose arguments the repository itself marks as intentionally unused (flake8 U100); read from the file on
+            # disk, because in-memory variants are re-emitted by ast.unparse and lose their comments
+            import re as _re
+            for ln in p.read_text().splitlines():
+                mm = _re.match(r"\s*def\s+(\w+)\s*\(.*#\s*noqa:.*\bU100\b", ln)
+                if mm:
+                    self.unused_ok.add((qual, mm.group(1)))
         self.digest = h.hexdigest()[:16]
         for m in list(self.modules.values()):
             self._collect_defs(m)
